@@ -1868,6 +1868,28 @@ impl RdfExpressionPredicate {
                 let col_idx = *self.variable_columns.get(variable)?;
                 chunk.column(col_idx)?.get_value(row)
             }
+            FilterExpression::Binary {
+                left,
+                op: op @ (BinaryFilterOp::And | BinaryFilterOp::Or),
+                right,
+            } => {
+                // Logical connectives tolerate an error in one operand (SPARQL 17.2):
+                // `error || true` is true and `error && false` is false.
+                let l = self
+                    .eval_expr(left, chunk, row)
+                    .and_then(|v| v.as_bool());
+                let r = self
+                    .eval_expr(right, chunk, row)
+                    .and_then(|v| v.as_bool());
+                let decisive = matches!(op, BinaryFilterOp::Or);
+                if l == Some(decisive) || r == Some(decisive) {
+                    Some(Value::Bool(decisive))
+                } else if l.is_none() || r.is_none() {
+                    None
+                } else {
+                    Some(Value::Bool(!decisive))
+                }
+            }
             FilterExpression::Binary { left, op, right } => {
                 let left_val = self.eval_expr(left, chunk, row)?;
                 let right_val = self.eval_expr(right, chunk, row)?;
